@@ -10,7 +10,8 @@ import z3
 from pyvc.vc import clause, mval
 from pyvc.values import *
 from pyvc.loops import LoopSpec
-from pyvc import opaque, reduce as red
+from pyvc import opaque
+from pyvc import reduce as red, reduce as red
 from .common import *
 from .C01 import wf, And_
 
@@ -117,7 +118,12 @@ def native_energy_check():
         s = pulses.astype(complex) if shape_kind != '2pol' else np.array([pulses, 0.5j * np.roll(pulses, 30)])
         if shape_kind == 'leading-zeros':
             s = s.copy(); s[:40] = 0
-        for (a, b2, b3, g, L, phi) in ((0.2, -20.0, 0.1, 2.0, 10.0, 0.05), (0.0, 5.0, 0.0, 5.0, 3.0, 0.01), (0.5, 0.0, 0.0, 1.5, 20.0, 0.05)):
+        s0 = s
+        # the 4th and 5th sets are weak signals on a short fibre (amplitude scaled down): gamma*P_peak*L < phi_max, so the first
+        # adaptive step is longer than the fibre and the remainder step is negative
+        for (a, b2, b3, g, L, phi, amp) in ((0.2, -20.0, 0.1, 2.0, 10.0, 0.05, 1.0), (0.0, 5.0, 0.0, 5.0, 3.0, 0.01, 1.0), (0.5, 0.0, 0.0, 1.5, 20.0, 0.05, 1.0),
+                                            (0.2, -20.0, 0.1, 1.3, 20.0, 0.1, 0.05), (0.3, 10.0, 0.0, 2.0, 1.0, 0.05, 0.1)):
+            s = s0 * amp
             try:
                 y = native_fiber(s, L, alpha=a, beta_2=b2, beta_3=b3, gamma=g, phi_max=phi)
                 e_in, e_out = np.sum(np.abs(s) ** 2, axis=-1), np.sum(np.abs(y) ** 2, axis=-1)
@@ -129,14 +135,14 @@ def native_energy_check():
             except TimeoutError:
                 ok = False
             if not ok:
-                bad.append([shape_kind, a, b2, b3, g, L, phi])
+                bad.append([shape_kind, a, b2, b3, g, L, phi, amp])
     gv.clean()
     return not bad, bad
 
 
 def rep(m):
     st, out = native(native_energy_check, 400)
-    return {'confirmed': st != 'ok' or not out[0], 'inputs': 'Gaussian pulse (1 pol, 2 pol, leading zero samples), three parameter sets incl. the dispersion-free lossy case', 'observed': out}
+    return {'confirmed': st != 'ok' or not out[0], 'inputs': 'Gaussian pulse (1 pol, 2 pol, leading zero samples), five parameter sets [alpha, beta2, beta3, gamma, L, phi_max, amplitude scale] incl. the dispersion-free lossy case and two weak-signal/short-fibre cases (first step longer than the fibre)', 'observed': out}
 
 
 def _mk_energy(npol):
@@ -182,6 +188,12 @@ def _mk_energy(npol):
                     facts.append(e(xlv - hl) * e(hl) == e(xlv))
                 facts.append(e(xlv) * e(L - xlv) == e(L))
             for r in range(npol):
+                yr, xr = row(y.f['signal'], npol, r), row(x.f['signal'], npol, r)
+                if opaque.find_app(p.ex, yr) is None:
+                    # output produced element-wise (a closed-form branch): |y[i]|^2 = exp(-alpha' L) |x[i]|^2 sample by sample, then linearity of the sum
+                    lem = red.scale_lemma(p.ex, abs2arr(yr), abs2arr(xr), uf('exp', -ap * L))
+                    if lem is not None:
+                        facts = facts + [lem]
                 K.prove(f'energy[{sig},pol{r}]', list(p.pc) + facts, toreal(opaque.sumsq(p.ex, row(y.f['signal'], npol, r))) == toreal(opaque.sumsq(p.ex, row(x.f['signal'], npol, r))) * uf('exp', -ap * L),
                         replay=rep, words="energy of each polarisation = input energy * exp(-alpha' L) for every sequence of step sizes (alpha' = alpha/4.343)")
             bad = purity_violations(p, y)
@@ -317,14 +329,35 @@ def bounded(K):
                         bad.append({'field': fname, 'params': [a, b2, b3, g, L], 'problem': '1-pol differs from x-pol of [A; 0]'})
                 except TimeoutError:
                     bad.append({'field': fname, 'params': [a, b2, b3, g, L], 'problem': 'timeout in polarisation equivalence'})
+        # zero-dispersion wavelength (beta2 = 0, beta3 != 0) on a wide-band grid where third-order dispersion matters
+        gv(sps=8, R=40e9)
+        fs2 = gv.fs
+        s = sum(np.sqrt(0.3) * np.exp(-((t - c) / 2.5) ** 2) for c in (120, 260, 300)).astype(complex)
+        for (a, b2, b3, g, L) in ((0.2, 0.0, 0.2, 1.5, 40.0), (0.0, 0.0, -0.15, 0.0, 60.0)):
+            ref = reference(s, L, a, b2, b3, g, fs2, 4000)
+            errs = []
+            for phi in (0.1, 0.02, 0.005):
+                n += 1
+                seen.add(('zdw', a, b2, b3, g, L))
+                try:
+                    y = native_fiber(s, L, alpha=a, beta_2=b2, beta_3=b3, gamma=g, phi_max=phi)
+                    errs.append(float(np.linalg.norm(y - ref) / np.linalg.norm(ref)))
+                except TimeoutError:
+                    bad.append({'field': 'short pulses at 320 GS/s', 'params': [a, b2, b3, g, L], 'phi_max': phi, 'problem': 'no result within 60 s'})
+                    errs = None
+                    break
+            if errs:
+                C = 2 * errs[0] / 0.1
+                if not (errs[1] <= C * 0.02 + 1e-6 and errs[2] <= C * 0.005 + 1e-6 and errs[2] <= 0.05):
+                    bad.append({'field': 'short pulses at 320 GS/s', 'params': [a, b2, b3, g, L], 'rel_errors(phi=0.1,0.02,0.005)': errs})
         gv.clean()
         return {'n': n, 'distinct': len(seen), 'bad': bad[:6], 'nbad': len(bad)}
     st, r = native(work, 3000)
     K.bounded('nlse_convergence', st == 'ok' and r['nbad'] == 0, {'evaluations': r['n'] if st == 'ok' else 0, 'distinct_nontrivial': r['distinct'] if st == 'ok' else 0,
-              'bound': '2 fields (thorough 3) x 2 parameter sets (thorough 4) x phi_max in {0.1,0.02,0.005}; reference: 4000 fixed steps; N=512', 'samples': [{'field': 'gauss-train', 'alpha': 0.2, 'beta2': -20, 'gamma': 2, 'L': 8}],
+              'bound': '2 fields (thorough 3) x 2 parameter sets (thorough 4) x phi_max in {0.1,0.02,0.005}; reference: 4000 fixed steps; N=512; plus two zero-dispersion-wavelength sets (beta2 = 0, beta3 != 0, one of them linear) on short pulses at 320 GS/s', 'samples': [{'field': 'gauss-train', 'alpha': 0.2, 'beta2': -20, 'gamma': 2, 'L': 8}],
               'failures': r if st == 'ok' else [st, r]})
     st, out = native(native_energy_check, 600)
-    K.bounded('energy_numeric', st == 'ok' and out[0], {'evaluations': 9, 'distinct_nontrivial': 9, 'bound': '3 layouts (incl. leading zero samples) x 3 parameter sets: finiteness, shape, energy law to 1e-9, SPM closed form',
+    K.bounded('energy_numeric', st == 'ok' and out[0], {'evaluations': 15, 'distinct_nontrivial': 15, 'bound': '3 layouts (incl. leading zero samples) x 5 parameter sets (two with the first adaptive step longer than the fibre): finiteness, shape, energy law to 1e-9, SPM closed form',
                                                          'samples': [{'layout': 'leading-zeros'}], 'failures': out if st == 'ok' else [st, out]})
 
 
